@@ -6,7 +6,7 @@ use num::bigint::ToBigInt;
 use num::bigint::{BigInt, Sign};
 use num::complex::Complex64;
 use num::pow::Pow;
-use num::{One, Signed, ToPrimitive, Zero};
+use num::{Signed, ToPrimitive, Zero};
 use std::cmp::Ordering;
 use std::fmt;
 use std::hash::{Hash, Hasher};
@@ -649,6 +649,17 @@ impl NNum {
     }
 }
 
+// an exact fraction: an integral value hashes exactly like the integer, anything else as numerator
+// and denominator (lowest terms)
+fn consistent_hash_rational<H: Hasher>(r: &BigRational, state: &mut H) {
+    if r.is_integer() {
+        NInt::hash(&NInt::Big(r.numer().clone()), state)
+    } else {
+        BigInt::hash(r.numer(), state);
+        BigInt::hash(r.denom(), state);
+    }
+}
+
 fn consistent_hash_f64<H: Hasher>(f: f64, state: &mut H) {
     match to_nint_if_int(f) {
         Some(s) => NInt::hash(&s, state),
@@ -657,9 +668,12 @@ fn consistent_hash_f64<H: Hasher>(f: f64, state: &mut H) {
                 // some nan from wikipedia (not that this matters)
                 state.write_u64(0x7FF0000000000001u64)
             } else {
-                // I *think* this actually obeys the laws...?
-                // (+/- 0 are handled by the bigint branch)
-                f.to_bits().hash(state)
+                match BigRational::from_float(f) {
+                    // a finite non-integral float hashes like the fraction it is == to
+                    Some(r) => consistent_hash_rational(&r, state),
+                    // infinities (+/- 0 are handled by the bigint branch)
+                    None => f.to_bits().hash(state),
+                }
             }
         }
     }
@@ -669,17 +683,19 @@ impl NNum {
     pub fn total_hash<H: Hasher>(&self, state: &mut H) {
         match self {
             NNum::Int(a) => NInt::hash(&a, state),
-            NNum::Rational(r) => {
-                // TODO: should we make rationals consistent with floats?
-                BigInt::hash(r.numer(), state);
-                if !r.denom().is_one() {
-                    BigInt::hash(r.denom(), state);
-                }
-            }
+            NNum::Rational(r) => consistent_hash_rational(r, state),
             NNum::Float(f) => consistent_hash_f64(*f, state),
             NNum::Complex(z) => {
-                consistent_hash_f64(z.re, state);
-                consistent_hash_f64(z.im, state);
+                if z.re.is_nan() || z.im.is_nan() {
+                    // every NaN is total_eq to every other
+                    consistent_hash_f64(f64::NAN, state)
+                } else if z.im == 0.0 {
+                    // == to the real number z.re
+                    consistent_hash_f64(z.re, state)
+                } else {
+                    consistent_hash_f64(z.re, state);
+                    consistent_hash_f64(z.im, state);
+                }
             }
         }
     }
